@@ -15,6 +15,7 @@ structure Request where
   branchId : Int
   branchType : Int          -- AT 0, TCC 1, SAGA 2, XA 3, anything else unknown
   resource : String
+  session : Nat := 0        -- the session (coordinator connection) the request arrived on
   deriving Repr, DecidableEq
 
 /-- what the resource manager returned: a status byte, or an error -/
@@ -27,6 +28,7 @@ structure Response where
   xid : String
   branchId : Int
   status : Nat
+  session : Nat := 0        -- the session the response is written to
   deriving Repr, DecidableEq
 
 /-- registry: which branch types have a manager, and what that manager answers for a request -/
@@ -35,12 +37,14 @@ structure Registry where
   answer : Int → Request → Outcome      -- indexed by the manager's branch type
 
 /-- one request: routed by its branch type; a status is echoed in exactly one response addressed with
-    the request's message id, xid and branch id; a manager error or a missing manager yields no
+    the request's message id, xid and branch id and written to the session the request arrived on
+    (SendAsyncResponseTo); a manager error or a missing manager yields no
     response (the coordinator retries) -/
 def process (reg : Registry) (r : Request) : List Response :=
   if reg.has r.branchType then
     match reg.answer r.branchType r with
-    | .status s => [{ kind := r.kind, msgId := r.msgId, xid := r.xid, branchId := r.branchId, status := s }]
+    | .status s => [{ kind := r.kind, msgId := r.msgId, xid := r.xid, branchId := r.branchId, status := s,
+                      session := r.session }]
     | .error => []
   else []
 
